@@ -263,3 +263,20 @@ class ParticleProblem(AbstractProblem):
             if vec_syntactic_equal(r.f, f):
                 return r
         return None
+
+
+class mesh(Vec):
+    """a Vec whose TYPE NAME is 'mesh': RungeKutta.get_full_f dispatches on type(f).__name__"""
+
+
+class RKAbstractProblem(AbstractProblem):
+    def __init__(self, **kw):
+        super().__init__(**kw)
+        self.dtype_f = mesh
+
+    def eval_f(self, u, t, *a, **k):
+        return mesh(super().eval_f(u, t, *a, **k))
+
+    @property
+    def f_init(self):
+        return mesh()
